@@ -361,6 +361,12 @@ def check(repo, rep, tier):
     r2 = rep.rule("R-C10-2", "declared lengths and counts equal what is written", floor=10)
     r1 = rep.rule("R-C10-1", "field-size writes carry canonical values", floor=5)
     r3 = rep.rule("R-C10-3", "wire numbering: allocator = circuit writer = witness writer", floor=4)
+    r6 = rep.rule("R-C10-6", "records shared through tables are keyed by the value itself, never by hash(value)", floor=1)
+    from .hashkeys import rule_no_hash_keys
+    rule_no_hash_keys(repo, r6, (MOD,))
+    r5 = rep.rule("R-C10-5", "the linear combinations written are the traced ones: backend algebra (shared with C13) and immutability", floor=4)
+    from .c13 import algebra as _alg, immutability as _imm
+    _alg(repo, r5, only=(MOD,))
     for node, why in it.problems:
         r2.undecided(fi.loc(node), fi.fq, norm(node)[:100], why)
     for name, (fvar, vp, lp, le, fn) in sorted(it.writers.items()):
